@@ -122,6 +122,10 @@ inline QByteArray withWriter(F &&f)
     {
         QXmlStreamWriter w(&out);
         f(w);
+        // several toXml() end with writeEmptyElement()+attributes; the writer only emits the closing "/>" with the next token
+        // (inside a parent that is the parent's end tag). Writing an empty text closes a pending start tag without closing any
+        // element the serializer left open, so unbalanced output stays visible.
+        w.writeCharacters(QString());
     }
     return out;
 }
@@ -135,10 +139,29 @@ inline QByteArray serWrapped(const T &t)
 {
     return withWriter([&](QXmlStreamWriter &w) { w.writeStartElement(QStringLiteral("verif-wrap")); t.toXml(&w); w.writeEndElement(); });
 }
+inline void writeDom(QXmlStreamWriter &w, const QDomElement &e, const QString &parentNs)
+{
+    const QString ns = e.namespaceURI();
+    w.writeStartElement(e.localName().isEmpty() ? e.tagName() : e.localName());
+    if (ns != parentNs) w.writeDefaultNamespace(ns);
+    const auto am = e.attributes();
+    for (int i = 0; i < am.count(); i++) {
+        const auto a = am.item(i).toAttr();
+        if (a.name() == u"xmlns" || a.name().startsWith(u"xmlns:")) continue;
+        if (a.prefix().isEmpty() || a.prefix() == u"xml") w.writeAttribute(a.name(), a.value());
+        else w.writeAttribute(a.namespaceURI(), a.localName(), a.value());
+    }
+    for (auto c = e.firstChild(); !c.isNull(); c = c.nextSibling()) {
+        if (c.isElement()) writeDom(w, c.toElement(), ns);
+        else if (c.isText() || c.isCDATASection()) w.writeCharacters(c.nodeValue());
+    }
+    w.writeEndElement();
+}
 inline QByteArray elementText(const QDomElement &e)
 {
-    // namespace-complete text of one element (used for the QXmlStreamReader based parsers)
-    return withWriter([&](QXmlStreamWriter &w) { QXmppElement(e).toXml(&w); });
+    // namespace-complete text of one element (used for the QXmlStreamReader based parsers); the element's namespace is always
+    // declared, also when the DOM element inherited it from its parent
+    return withWriter([&](QXmlStreamWriter &w) { writeDom(w, e, QString()); });
 }
 
 // ---- entry constructors --------------------------------------------------------------------------------------------
@@ -188,6 +211,9 @@ Codec formBased(const char *name, std::vector<std::string> covers)
 }
 
 // QXmppDataFormBase::fromDataForm is protected and QXmppPubSubMetadata has no public wrapper: reach it through a derived class
+struct PublishOptionsAccess : QXmppPubSubPublishOptions {
+    static bool from(const QXmppDataForm &f, QXmppPubSubPublishOptions &m) { return QXmppDataFormBase::fromDataForm(f, m); }
+};
 struct MetadataAccess : QXmppPubSubMetadata {
     static bool from(const QXmppDataForm &f, QXmppPubSubMetadata &m) { return QXmppDataFormBase::fromDataForm(f, m); }
 };
@@ -227,7 +253,10 @@ inline std::vector<Codec> buildTable()
     t.push_back(untyped<QXmppVCardAddress>("QXmppVCardAddress", { "QXmppVCardAddress" }));
     t.push_back(untyped<QXmppVCardEmail>("QXmppVCardEmail", { "QXmppVCardEmail" }));
     t.push_back(untyped<QXmppVCardPhone>("QXmppVCardPhone", { "QXmppVCardPhone" }));
-    t.push_back(untyped<QXmppVCardOrganization>("QXmppVCardOrganization", { "QXmppVCardOrganization" }));
+    // writes its ORG/TITLE/ROLE elements as siblings into the vCard and parses from the vCard element: wrapped
+    t.push_back({ "QXmppVCardOrganization", { "QXmppVCardOrganization" }, false, false,
+                  [](const QDomElement &) { return true; },
+                  [](const QDomElement &e) { QXmppVCardOrganization o; o.parse(e); return serWrapped(o); } });
     t.push_back(untyped<QXmppTransferFileInfo>("QXmppTransferFileInfo", { "QXmppTransferFileInfo" }));
     t.push_back(untyped<QXmppPubSubItem>("QXmppPubSubItem(compat)", { "QXmppPubSubItem" }));
     t.push_back(untyped<QXmppStartTlsPacket>("QXmppStartTlsPacket(compat)", { "QXmppStartTlsPacket" }));
@@ -405,7 +434,14 @@ inline std::vector<Codec> buildTable()
 
     // ---------------------------------------------------------------- data-form based option/config classes
     t.push_back(formBased<QXmppPubSubNodeConfig>("QXmppPubSubNodeConfig", {}));
-    t.push_back(formBased<QXmppPubSubPublishOptions>("QXmppPubSubPublishOptions", {}));
+    // QXmppPubSubPublishOptions::fromDataForm is declared in the header but defined nowhere in the library: use the base helper
+    t.push_back({ "QXmppPubSubPublishOptions", {}, true, false,
+                  [](const QDomElement &e) { QXmppDataForm f; f.parse(e); QXmppPubSubPublishOptions m; return PublishOptionsAccess::from(f, m); },
+                  [](const QDomElement &e) {
+                      QXmppDataForm f; f.parse(e);
+                      QXmppPubSubPublishOptions m;
+                      return PublishOptionsAccess::from(f, m) ? ser(m.toDataForm()) : QByteArray();
+                  } });
     t.push_back({ "QXmppPubSubMetadata", {}, true, false,
                   [](const QDomElement &e) { QXmppDataForm f; f.parse(e); QXmppPubSubMetadata m; return MetadataAccess::from(f, m); },
                   [](const QDomElement &e) {
